@@ -45,13 +45,24 @@ Definition strip (s : tree) : tree * bool :=
 Definition nest_unary (o : uop) (s : tree) : result tree :=
   do t <- finish_default o s; select_of t.
 
+(* nest the select without its sort; the sort is re-applied outside (compound selects) *)
+Definition nest_hoist_sort (o : uop) (sl : selslots) (skip : tree) : result tree :=
+  if negb (bool_decide (op_required (Sort (s_sort sl)) ⊆ (match s_proj sl with Some ps => ps | None => columns skip end)))
+  then Err OrderLoss else
+  do sub <- apply_skip (with_sort sl []) skip;
+  do t <- finish_default o sub;
+  apply_skip (with_sort no_slots (s_sort sl)) t.
+
+Definition is_colref (e : expr) : bool := match e with ERef _ => true | _ => false end.
+
 (* _append_unary_to_select for the six unary operations (and Identity) *)
 Fixpoint append_unary_sel (o : uop) (s : tree) {struct s} : result tree :=
   match s with
   | SelM sl skip tgt =>
       match o with
       | Calc tag e =>
-          if is_chain skip || bool_decide (tag ∈ columns skip) then nest_unary o s
+          if is_chain skip || bool_decide (tag ∈ columns skip) then
+            (if has_sort sl && negb (has_slice sl) then nest_hoist_sort o sl skip else nest_unary o s)
           else do k <- finish_apply o skip;
                if has_proj sl then apply_skip (with_proj sl (Some (columns s ∪ {[tag]}))) k
                else apply_skip sl k
@@ -79,12 +90,15 @@ Fixpoint append_unary_sel (o : uop) (s : tree) {struct s} : result tree :=
             end
       | Sel p =>
           if has_slice sl then nest_unary o s
-          else if is_chain skip then nest_unary o s
+          else if is_chain skip then nest_hoist_sort o sl skip
           else do k <- finish_apply o skip; apply_skip sl k
       | Slice a b =>
           do ns <- slice_then (fst (s_slice sl)) (snd (s_slice sl)) a b;
           apply_skip (with_slice sl ns) skip
       | Sort ts =>
+          if is_chain skip && negb (forallb (fun t => is_colref (fst t)) ts) then
+            (if has_sort sl && negb (has_slice sl) then Err OrderLoss else apply_skip (with_sort no_slots ts) s)
+          else
           if has_slice sl then apply_skip (with_sort no_slots ts) s
           else apply_skip (with_sort sl (sort_then (s_sort sl) ts)) skip
       | Ident => Ok s
@@ -98,30 +112,28 @@ Inductive bop' := BChain | BJoin (p : pred) (common : gset tag) | BIgnore (ignor
 Definition order_loss (s : tree) : bool := has_sort (sel_slots s) && negb (has_slice (sel_slots s)).
 
 (* other.with_rows_satisfying(predicate) as used by Join._finish_apply when one operand is the join
-   identity: _begin_apply, then the engine's append_unary.  In the SQL engine the operand is
-   conformed first; that is modelled for operands that are SELECT markers or locked/marker
-   relations (anything else is reported as a gap of the model, not as a library error). *)
-Definition select_rows (p : pred) (t : tree) : result tree :=
-  do o <- begin_apply (Sel (selection_norm p)) (columns t);
-  match ekind_of (engine_of t) with
-  | KIter => finish_apply o t
-  | KSql =>
-      do c <- (match t with
-               | SelM _ _ _ => Ok t
-               | Leaf _ _ _ _ _ | Mat _ _ | Xfer _ _ => select_of t
-               | _ => Err ModelGap
-               end);
-      append_unary_sel o c
+   identity and the predicate is not trivially true: _begin_apply, then the engine's append_unary.
+   In the SQL engine the operand is conformed first; `cf` is the conformation function available
+   at this nesting depth (see conform_n below). *)
+Definition select_rows (cf : tree -> result tree) (p : pred) (t : tree) : result tree :=
+  match as_trivial p with
+  | Some true => Ok t
+  | _ =>
+      do o <- begin_apply (Sel (selection_norm p)) (columns t);
+      match ekind_of (engine_of t) with
+      | KIter => finish_apply o t
+      | KSql => do c <- cf t; append_unary_sel o c
+      end
   end.
 
-Definition join_finish (p : pred) (c : gset tag) (l r : tree) : result tree :=
-  if is_join_identity l then select_rows p r
-  else if is_join_identity r then select_rows p l
+Definition join_finish (cf : tree -> result tree) (p : pred) (c : gset tag) (l r : tree) : result tree :=
+  if is_join_identity l then select_rows cf p r
+  else if is_join_identity r then select_rows cf p l
   else if negb (engine_eqb (engine_of l) (engine_of r)) then Err EngineError
   else if negb (supp_p (ekind_of (engine_of l)) p) then Err EngineError
   else Ok (Bin (Join p c) l r).
 
-Definition append_binary_sel (b : bop') (l r : tree) : result tree :=
+Definition append_binary_sel_with (cf : tree -> result tree) (b : bop') (l r : tree) : result tree :=
   if order_loss l then Err OrderLoss
   else if order_loss r then Err OrderLoss
   else match b with
@@ -135,20 +147,29 @@ Definition append_binary_sel (b : bop') (l r : tree) : result tree :=
            (* do not strip a projection that hides a column the other operand provides *)
            let '(nl, lp) := if bool_decide ((columns nl0 ∖ columns l) ∩ columns nr0 = ∅) then (nl0, lp0) else (l, false) in
            let '(nr, rp) := if bool_decide ((columns nr0 ∖ columns r) ∩ columns nl = ∅) then (nr0, rp0) else (r, false) in
-           do j <- join_finish p c nl nr;
+           do j <- join_finish cf p c nl nr;
            apply_skip (with_proj no_slots (if lp || rp then Some (columns l ∪ columns r) else None)) j
        | BIgnore il => Ok (if il then r else l)
        end.
 
-(* Engine.conform *)
-Fixpoint conform (t : tree) : result tree :=
-  match t with
-  | SelM _ _ _ => Ok t
-  | Un o t' => do c <- conform t'; append_unary_sel o c
-  | Bin Chain l r => do cl <- conform l; do cr <- conform r; append_binary_sel BChain cl cr
-  | Bin (Join p c) l r => do cl <- conform l; do cr <- conform r; append_binary_sel (BJoin p c) cl cr
-  | Xfer _ _ | Mat _ _ | Leaf _ _ _ _ _ => select_of t
-  end.
+(* Engine.conform.  The identity-join path re-enters conform on a relation that is not a subterm;
+   the model bounds the depth of such re-entries (exhaustion is reported as a gap of the model,
+   never as a library result). *)
+Fixpoint conform_n (n : nat) : tree -> result tree :=
+  let cf := match n with O => (fun _ => Err ModelGap) | S n' => conform_n n' end in
+  fix go (t : tree) : result tree :=
+    match t with
+    | SelM _ _ _ => Ok t
+    | Un o t' => do c <- go t'; append_unary_sel o c
+    | Bin Chain l r => do cl <- go l; do cr <- go r; append_binary_sel_with cf BChain cl cr
+    | Bin (Join p c) l r => do cl <- go l; do cr <- go r; append_binary_sel_with cf (BJoin p c) cl cr
+    | Xfer _ _ | Mat _ _ | Leaf _ _ _ _ _ => select_of t
+    end.
+
+Definition reconform_depth : nat := 6.
+Definition conform (t : tree) : result tree := conform_n reconform_depth t.
+Definition append_binary_sel (b : bop') (l r : tree) : result tree :=
+  append_binary_sel_with (conform_n (Nat.pred reconform_depth)) b l r.
 
 (* sql.Engine.materialize / transfer / leaves *)
 Definition sql_materialize (name : positive) (t : tree) : result tree :=
